@@ -217,12 +217,37 @@ def features(prog):
             feats.add('logic')
             if parent is None or parent[0] != 'cond':
                 pass
+        if k in ('deref', 'addr') or (k == 'idx' and e[1] in ('p', 'q')):
+            feats.add('pointer')
         if k == 'var' and ty.get(e[1], ('', False, False))[2]:
             feats.add('superchip')
         if k == 'idx' and ty.get(e[1], ('', False, False))[2]:
             feats.add('superchip')
 
+    def has_deref(e):
+        return contains(e, lambda x: x[0] == 'deref' or (x[0] == 'idx' and x[1] in ('p', 'q') and x[2][0] == 'num'))
+
+    def uses_y(e):
+        return contains(e, lambda x: x == ('var', 'Y'))
+
     def fs(s):
+        # a dereference parks Y in cctmp and loads 0 into it for the duration of the statement
+        if s[0] == 'expr' and has_deref(s[1]) and uses_y(s[1]):
+            feats.add('deref_with_y')
+        if s[0] in ('if', 'while') and has_deref(s[1]):
+            feats.add('deref_in_cond')
+        if s[0] == 'do' and has_deref(s[2]):
+            feats.add('deref_in_cond')
+        if s[0] == 'for' and s[2] is not None and has_deref(s[2]):
+            feats.add('deref_in_cond')
+        if s[0] == 'return' and s[1] is not None and has_deref(s[1]) and uses_y(s[1]):
+            feats.add('deref_with_y')
+        if s[0] == 'expr' and contains(s[1], lambda x: x[0] == 'tern' and has_deref(x[1])):
+            feats.add('deref_in_cond')
+        if s[0] == 'expr' and contains(s[1], lambda x: x[0] == 'bin' and x[1] in ('&&', '||', '==', '!=', '<', '>', '<=', '>=') and has_deref(x)):
+            feats.add('deref_in_cond')
+        if s[0] in ('expr', 'return') and s[1] is not None and has_deref(s[1]) and contains(s[1], lambda x: x[0] == 'call'):
+            feats.add('deref_with_call')
         if s[0] == 'switch':
             feats.add('switch')
         if s[0] in ('while', 'do', 'for'):
